@@ -377,7 +377,7 @@ def operatorOk (s : State) : Bool :=
     | some cons => decide (1 ≤ cons.length ∧ cons.length ≤ 16)
 
 /-- `TxActor.isValidSender`: some signer is a registered relayer or a permitted address. -/
-def admit (s : State) (signers : List Addr) : Bool :=
+def admits (s : State) (signers : List Addr) : Bool :=
   signers.any (fun a => s.relayers.contains a || s.permitted.contains a)
 
 inductive Op
@@ -409,7 +409,7 @@ inductive Op
   | vote (id : Bytes) (addr : Addr)
   | sig (signers : List Addr) (addr : Addr) (subject sig : Bytes)
   /-- txnpool/proc: is a transaction signed by `signers` admitted? -/
-  | admit (signers : List Addr)
+  | submit (signers : List Addr)
   /-- txnpool/proc updatePermittedAddrMap (`operator`: multi-signature address of all pool members, an oracle value;
   `none` when it cannot be formed) -/
   | refresh (operator : Option Addr)
@@ -634,7 +634,7 @@ def plan (s : State) : Op → M Plan
           .ok (.done { st := { s with sigs := alPut s.sigs (H subject) info }, ret := "1",
                        events := if emit then ["AddSignatureQuorum"] else [] })
   -- transaction pool admission (reads the relayer registry and the permitted cache; no chain state changes)
-  | .admit sg => .ok (.done { st := s, ret := if admit s sg then "1" else "0", events := [] })
+  | .submit sg => .ok (.done { st := s, ret := if admits s sg then "1" else "0", events := [] })
   -- bactor.UpdatePermittedAddrMap: every member of the pool of the current view (whatever its status) and their
   -- multi-signature address become permitted; nothing is ever removed
   | .refresh operator =>
